@@ -185,13 +185,24 @@ func init() {
 				}
 			}
 			start()
-			// wait until the controller has drained the queue and is idle
-			for t := 0; t < 2000 && cfg.VerifPending() > 0; t++ {
-				time.Sleep(time.Millisecond)
-			}
-			time.Sleep(5 * time.Millisecond)
+			// the controller handles events one at a time, in order: when the processor of a sentinel service announced
+			// last exists, every earlier event has been handled
+			cfg.VerifDependencyUpdate([]*service.Service{{Name: "svc999"}}, nil)
+			cfg.VerifSvcConfigUpdate("svc999", c08Cfg(999, true))
+			cfg.VerifSvcEndpointUpdate("svc999", c08Eps("1"), nil)
+			waitFor(5*time.Second, func() bool {
+				for _, p := range ctl.GetAllProcs() {
+					if p.Name() == "svc999" {
+						return true
+					}
+				}
+				return false
+			})
 			var out []string
 			for _, p := range ctl.GetAllProcs() {
+				if p.Name() == "svc999" {
+					continue
+				}
 				c := p.Config()
 				id := int(c.Listener.Address.Port) - 20000
 				var hs []string
